@@ -284,8 +284,41 @@ class WithRewriter(ast.NodeTransformer):
         return node
 
 
+class AnnRewriter(ast.NodeTransformer):
+    """Inside function bodies an annotated assignment `x: T = v` is the assignment `x = v` (the annotation is not evaluated for attribute and
+    subscript targets' values and has no run-time effect on locals); a bare `x: T` there does nothing.  Class bodies are left alone: there the
+    annotations declare record fields."""
+
+    def __init__(self):
+        self.depth = 0
+        self.rewritten = 0
+
+    def visit_FunctionDef(self, n):
+        self.depth += 1
+        self.generic_visit(n)
+        self.depth -= 1
+        return n
+    visit_AsyncFunctionDef = visit_FunctionDef
+
+    def visit_ClassDef(self, n):
+        saved, self.depth = self.depth, 0
+        self.generic_visit(n)
+        self.depth = saved
+        return n
+
+    def visit_AnnAssign(self, n):
+        if not self.depth:
+            return n
+        self.rewritten += 1
+        if n.value is None:
+            return ast.copy_location(ast.Pass(), n)
+        return ast.copy_location(ast.Assign(targets=[n.target], value=n.value, type_comment=None), n)
+
+
 def rewrite(tree: ast.AST) -> int:
     """in place; -> number of match statements rewritten"""
+    a = AnnRewriter()
+    a.visit(tree)
     r = MatchRewriter()
     r.visit(tree)
     w = WithRewriter(tree)
@@ -293,4 +326,4 @@ def rewrite(tree: ast.AST) -> int:
         w.visit(tree)
         w.drop_unused_managers(tree)
     ast.fix_missing_locations(tree)
-    return r.rewritten + w.rewritten
+    return r.rewritten + w.rewritten + a.rewritten
